@@ -42,15 +42,30 @@ Definition py_truediv_float (value : num) (divisor : spec_float) : pyres spec_fl
     end
   end.
 
+(* exact decision used when the float computation overflows (fix 2eb3576):
+   bool(Fraction(value) % Fraction(multiple_of)) *)
+Definition exact_multiple (value multiple : num) : pyres bool :=
+  match dy_of_num value, dy_of_num multiple with
+  | Some a, Some b =>
+    if Z.eqb (dm b) 0 then PExn ZeroDivisionError
+    else
+      let e := Z.min (de a) (de b) in
+      PVal (Z.eqb (Z.rem (dm a * 2 ^ (de a - e)) (dm b * 2 ^ (de b - e))) 0)
+  | _, _ => PExn OtherExn
+  end.
+
 (* MultipleOf._validate: true = passes, false = ValidationError *)
 Definition multiple_of_check (value multiple : num) : pyres bool :=
   match multiple with
   | NF fm =>
-    (* quotient = value / multiple_of; int(quotient) != quotient -> invalid *)
+    (* quotient = value / multiple_of; int(quotient) != quotient -> invalid;
+       OverflowError anywhere -> exact *)
     match py_truediv_float value fm with
+    | PExn OverflowError => exact_multiple value multiple
     | PExn x => PExn x
     | PVal q =>
       match py_int_of_float q with
+      | PExn OverflowError => exact_multiple value multiple
       | PExn x => PExn x
       | PVal iq => PVal (num_eqb (NZ iq) (NF q))
       end
@@ -61,9 +76,10 @@ Definition multiple_of_check (value multiple : num) : pyres bool :=
       match value with
       | NZ v => PVal (Z.eqb (Z.modulo v m) 0)
       | NF fv =>
-        (* float % int: int converted to float first; remainder is exact (fmod),
-           so it is zero iff the float is an exact multiple of float(m) *)
+        (* float % int: int converted to float first (OverflowError -> exact); the remainder
+           is exact (fmod), so it is zero iff the float is an exact multiple of float(m) *)
         match py_float_of_int m with
+        | PExn OverflowError => exact_multiple value multiple
         | PExn x => PExn x
         | PVal fm =>
           match dy_of_float fv, dy_of_float fm with
